@@ -345,3 +345,5 @@ def run(ck):
     ck.run_rule("P1", "'.align 0' and other divisions by program values are guarded", 3, partial.rule_P1)
     from . import c02
     ck.run_rule("C02.R1", "announced size == produced length (the fill of .even/.odd/.align is computed from addresses built on these sizes)", 40, c02.rule_R1)
+    from . import c14
+    ck.run_rule("C14.fn", "an unencodable character is refused by the codec (no fast path around the table)", 30, c14.rule_functions)
